@@ -2,8 +2,10 @@
 (* Batch trace validation for Launcher: every recorded execution of the real launch() threads and serve_unix
    worker threads must be a behaviour of Launcher, with the C33 clauses evaluated in every state reached.
 
-   Trace file (IOEnv.TRACE_FILE): JSON array of [ev |-> <<event, ...>>]; one event per scheduler step:
-     a, k    "L" | "W" and the launcher / worker number that took the step
+   Trace file (IOEnv.TRACE_FILE): JSON array of [hashed, gpc0, ev |-> <<event, ...>>]; one event per scheduler step:
+     a, k    "L" | "W" | "G" and the launcher / worker number that took the step (G: the gc_state_dir thread)
+     gl, meta   park label of the collector thread ("" = none); does the .meta file exist
+     nz      per worker: stdout lines it still has to deliver before its readiness line
      ll, wl  park labels of all launcher threads / of all worker threads created so far
      lk      launcher holding the file lock (0 = free)       path   worker whose socket inode the path names (0 = none)
      wo      per worker: is its listening socket open        ic     per worker: inode class (smallest worker number
@@ -19,7 +21,10 @@ WLabel(p) == CASE p = "start" -> "start" [] p = "check" -> "wcheck" [] p = "bind
                [] p = "closing" -> "wunlink" [] p \in {"gone", "failed"} -> "EXIT" [] OTHER -> "?"
 Res(r) == IF r \in {"probe", "spawn"} THEN "path" ELSE r
 
+GLabel(p) == CASE p = "start" -> "start" [] p = "try" -> "trylock" [] p = "probe" -> "probe" [] p = "done" -> "EXIT"
+               [] OTHER -> ""
 TraceInit == /\ tid \in 1..Len(Traces) /\ l = 1 /\ Init
+             /\ hashed = Traces[tid].hashed /\ gpc = Traces[tid].gpc0
 Ev == Traces[tid].ev[l]
 Consume == l <= Len(Traces[tid].ev) /\ l' = l + 1 /\ UNCHANGED tid
 
@@ -29,13 +34,16 @@ Match == /\ \A i \in 1..Len(Ev.ll) : LLabel(pc'[i]) = Ev.ll[i] /\ Res(res'[i]) =
          /\ \A w \in 1..Len(Ev.wl) : /\ WLabel(wst'[w]) = Ev.wl[w]
                                      /\ Listening(w)' = Ev.wo[w]
                                      /\ ino'[w] = Ev.ic[w]
-         /\ lk' = Ev.lk /\ path' = Ev.path
+                                     /\ noise'[w] = Ev.nz[w]
+         /\ lk' = (IF Ev.lk = 100 THEN G ELSE Ev.lk) /\ path' = Ev.path /\ meta' = Ev.meta /\ GLabel(gpc') = Ev.gl
 
 TraceNext == /\ Consume
              /\ \/ /\ Ev.a = "L" /\ Ev.k \in 1..Len(Ev.ll)
-                   /\ \/ LBegin(Ev.k) \/ LLock(Ev.k) \/ LProbe(Ev.k) \/ LUnlink(Ev.k) \/ LSpawn(Ev.k) \/ LReady(Ev.k)
+                   /\ \/ LBegin(Ev.k) \/ LLock(Ev.k) \/ LProbe(Ev.k) \/ LUnlink(Ev.k) \/ LReadNoise(Ev.k) \/ LReady(Ev.k)
+                      \/ (\E nz \in NoiseSet : LSpawn(Ev.k, nz))
                 \/ /\ Ev.a = "W" /\ Ev.k \in Workers
                    /\ \/ WStart(Ev.k) \/ WCheck(Ev.k) \/ WBind(Ev.k) \/ WClose(Ev.k) \/ WUnlink(Ev.k)
+                \/ Ev.a = "G" /\ (GStart \/ GTry \/ GProbe)
              /\ Match
 TraceSpec == TraceInit /\ [][TraceNext]_tvars
 
